@@ -55,8 +55,8 @@ var tagDict = []string{
 var exprDict = []string{"1", "-1", "0x1F", "1.5", "2e3", "1e", "'s'", "'\\u00e9'", "'\\x'", "'", "\"", "null", "true", "$x", "$x.y", "$x?.y", "$x[0]", "$x?[", "$ij.a", "$", "a.b", "f(", "f(1)", ")", "(", "[", "]", "[:]", ":", ",", "?", "?:", "+", "-", "*", "/", "%", "<", "<=", "==", "!=", "!", "=", "and", "or", "not", "|", "}", "{", " ", "\n", "é", "\x00", "\xff", ".", ".5", "1.", "1 2 3", "@", "@param", "//", "/*"}
 
 var (
-	corpusOnce  []string
-	tokenSplit  = regexp.MustCompile(`\{[^{}]*\}|/\*\*?|\*/|[^{}]+|[{}]`)
+	corpusOnce []string
+	tokenSplit = regexp.MustCompile(`\{[^{}]*\}|/\*\*?|\*/|[^{}]+|[{}]`)
 )
 
 // validCorpus returns the repository's own templates (read at run time from /repo).
